@@ -235,7 +235,7 @@ Section Variant.
   Qed.
 
   (* ---- the neighbour loop keeps the structural invariant and the number of hosting entries *)
-  Lemma add_neighbor_tinv me V o (rq : path) spent :
+  Lemma add_neighbor_tinv V o (rq : path) spent :
     rq <> [] -> hd (-2) rq = o -> NoDup rq -> (forall x, In x rq -> In x V) -> (forall x, In x V -> is_agent C x = true) ->
     forall nbrs T, (forall n r, In (n, r) nbrs -> is_agent C n = true) ->
       tinv V T o ->
@@ -281,5 +281,249 @@ Section Variant.
     - destruct (STEP T) as [TI1 N1]; auto.
       + intros e He _. eapply cheapest_none; eauto.
       + destruct (IH _ AN' TI1) as [TI2 N2]. split; auto. congruence.
+  Qed.
+
+  (* ---- the measure and the token invariant *)
+  Definition mu (V : list Z) (T : ptable) : nat := (2 * (na - List.length V) + nh T)%nat.
+  Definition W : nat := (4 * na + 1)%nat.
+  Definition Phi (m : msg) : nat :=
+    match m with
+    | MRequest t => (W * mu (t_visited t) (t_paths t) + (2 * na - List.length (t_path t)))%nat
+    | MAnswer t => (W * mu (t_visited t) (t_paths t) + (2 * na + List.length (t_path t)))%nat
+    | MReplicate _ => 0%nat
+    end.
+  Definition rq_ok (rq : path) : Prop := NoDup rq /\ rq <> [] /\ (forall x, In x rq -> is_agent C x = true).
+  Definition mok3 (d : Z) (m : msg) : Prop :=
+    match m with
+    | MReplicate _ => True
+    | MRequest t =>
+        tinv (t_visited t) (t_paths t) (hd (-2) (t_path t)) /\ rq_ok (t_path t)
+        /\ (forall x, In x (removelast (t_path t)) -> In x (t_visited t))
+        /\ (exists e, In e (t_paths t) /\ is_prefix (t_path t) (snd e) = true /\ fst e <= t_budget t + t_spent t)
+    | MAnswer t =>
+        tinv (t_visited t) (t_paths t) (hd (-2) (t_path t)) /\ rq_ok (t_path t)
+        /\ (forall x, In x (t_path t) -> In x (t_visited t))
+        /\ (exists pre sd, t_path t = pre ++ [d; sd])
+    end.
+
+  Lemma W_le a b p q : (a <= b)%nat -> (p < q)%nat -> (W * a + p < W * b + q)%nat.
+  Proof. intros H1 H2. pose proof (Nat.mul_le_mono_l a b W H1). lia. Qed.
+  Lemma W_lt a b p q : (a < b)%nat -> (p < W + q)%nat -> (W * a + p < W * b + q)%nat.
+  Proof.
+    intros H1 H2. assert (H : (W * (a + 1) <= W * b)%nat) by (apply Nat.mul_le_mono_l; lia).
+    rewrite Nat.mul_add_distr_l, Nat.mul_1_r in H. lia.
+  Qed.
+
+  Lemma tinv_nomid V T o : tinv V T o -> nomid T.
+  Proof.
+    intros (_ & B & D & _) e x He Hx E. subst x. destruct (D e He) as (_ & S & _).
+    apply S in Hx. apply B in Hx. unfold is_agent, HOSTING in Hx. lia.
+  Qed.
+
+  Lemma rq_len (rq : path) : rq_ok rq -> (List.length rq <= na)%nat.
+  Proof. intros (A & _ & B). apply agents_length; auto. Qed.
+
+  Lemma hosting_not_agent_path (rq : path) : (forall x, In x rq -> is_agent C x = true) -> ~ In HOSTING rq.
+  Proof. intros A H. apply A in H. unfold is_agent, HOSTING in H. lia. Qed.
+
+  (* on_replicate_request *)
+  Lemma on_request_var me s b sp rq T V c fp count hosts evs :
+    tinv V T (hd (-2) rq) -> rq_ok rq -> (forall x, In x (removelast rq) -> In x V) ->
+    (exists e, In e T /\ is_prefix rq (snd e) = true /\ fst e <= b + sp) ->
+    forall d m, In (d, m) (snd (fst (fst (on_request C me s b sp rq T V c fp count hosts evs)))) ->
+      mok3 d m /\ (Phi m < W * mu V T + (2 * na - List.length rq))%nat.
+  Proof.
+    intros TI RQ SUB (e & He & Pe & Ae) d m I. unfold on_request in I.
+    destruct (negb (last_z rq =? me)) eqn:El; [destruct I|].
+    apply negb_false_iff in El. apply Z.eqb_eq in El.
+    destruct RQ as (NDrq & NErq & Arq).
+    assert (Ame : is_agent C me = true) by (rewrite <- El; apply Arq, last_z_In; auto).
+    assert (Lrq : (List.length rq <= na)%nat) by (apply rq_len; split; auto).
+    set (o := hd (-2) rq) in *.
+    set (T1 := remove_path T rq) in *.
+    set (V1 := if negb (zmem me V) then V ++ [me] else V) in *.
+    set (T2 := if negb (zmem me V) && negb (owns C me c)
+               then psort (T1 ++ [(sp + hosting_cost C me c, rq ++ [HOSTING])]) else T1) in *.
+    pose proof (is_prefix_split _ _ Pe) as Esp.
+    destruct TI as (NDV & AV & E3 & UQ).
+    assert (HOSTrq : hostingp rq = false).
+    { unfold hostingp. rewrite El. unfold is_agent in Ame. unfold HOSTING. lia. }
+    assert (F : tinv V1 T2 o /\ (forall x, In x rq -> In x V1)
+                /\ (mu V1 T2 <= mu V T)%nat
+                /\ ((mu V1 T2 < mu V T)%nat \/ exists e', In e' T2 /\ is_prefix rq (snd e') = true /\ fst e' <= b + sp)).
+    { destruct (zmem me V) eqn:Ev.
+      - (* already visited *)
+        unfold V1, T2. simpl. apply zmem_In in Ev.
+        assert (NE : snd e <> rq).
+        { intro E. destruct (E3 e He) as (_ & _ & X & _). rewrite E in X. destruct (X HOSTrq) as [X1 _].
+          apply X1. rewrite El. exact Ev. }
+        assert (He1 : In e T1) by (apply remove_path_In; auto).
+        split; [apply (tinv_subset V T); [intros x Hx; apply remove_path_In in Hx; tauto|exact (conj NDV (conj AV (conj E3 UQ)))]|].
+        split; [intros x Hx; destruct (In_rq_cases rq x Hx) as [H|H]; auto; rewrite H, El; exact Ev|].
+        split; [unfold mu; pose proof (nh_remove_le T rq); fold T1 in H; lia|].
+        right. exists e. auto.
+      - (* first visit *)
+        assert (NV : ~ In me V) by (intro H; apply zmem_In in H; congruence).
+        assert (Erq : snd e = rq).
+        { destruct (skipn (List.length rq) (snd e)) as [|y tl] eqn:Esk; [rewrite app_nil_r in Esp; auto|].
+          exfalso. apply NV. destruct (E3 e He) as (_ & S & _). apply S.
+          rewrite Esp. rewrite (split_last rq NErq), El, <- app_assoc. simpl. apply removelast_In_app. }
+        assert (LV : (List.length (V ++ [me]) <= na)%nat).
+        { apply agents_length; [apply NoDup_snoc; auto|]. intros x Hx. apply in_app_or in Hx as [Hx|[<-|[]]]; auto. }
+        rewrite app_length in LV. simpl in LV.
+        assert (SUB1 : forall x, In x rq -> In x (V ++ [me])).
+        { intros x Hx. apply in_or_app. destruct (In_rq_cases rq x Hx) as [H|H]; [left; auto|right; left; congruence]. }
+        assert (TI1 : tinv (V ++ [me]) T1 o).
+        { split; [apply NoDup_snoc; auto|]. split; [intros x Hx; apply in_app_or in Hx as [Hx|[<-|[]]]; auto|]. split.
+          - intros e' He'. apply remove_path_In in He' as [He' Hne]. destruct (E3 e' He') as (X1 & X2 & X3 & X4).
+            split; [exact X1|]. split; [intros x Hx; apply in_or_app; left; auto|]. split; [|exact X4].
+            intros Hh. destruct (X3 Hh) as [Y1 Y2]. split; auto. intro Hx. apply in_app_or in Hx as [Hx|[Hx|[]]]; auto.
+            apply Hne. rewrite <- Erq. apply (UQ e' e He' He Hh); [rewrite Erq; exact HOSTrq|rewrite Erq, El; symmetry; exact Hx].
+          - intros e1 e2 H1 H2. apply remove_path_In in H1 as [H1 _]. apply remove_path_In in H2 as [H2 _]. apply UQ; auto. }
+        unfold V1, T2. simpl. split; [|split; [exact SUB1|]].
+        + destruct (owns C me c); simpl; [exact TI1|].
+          destruct TI1 as (A1 & B1 & D1 & U1). split; [exact A1|]. split; [exact B1|]. split.
+          * intros e' He'. apply (proj1 (psort_In _ _)) in He'. apply in_app_or in He' as [He'|[<-|[]]]; auto. simpl.
+            split; [apply NoDup_snoc; auto; apply hosting_not_agent_path; auto|].
+            split; [rewrite removelast_last; exact SUB1|]. split.
+            -- unfold hostingp. rewrite last_z_app. intros H. discriminate.
+            -- destruct rq; [contradiction|]. simpl. eauto.
+          * intros e1 e2 H1 H2 X1 X2. apply (proj1 (psort_In _ _)) in H1, H2.
+            apply in_app_or in H1 as [H1|[<-|[]]]; apply in_app_or in H2 as [H2|[<-|[]]]; auto;
+              try (simpl in X1; unfold hostingp in X1; rewrite last_z_app in X1; discriminate);
+              try (simpl in X2; unfold hostingp in X2; rewrite last_z_app in X2; discriminate).
+        + assert (N2 : (nh (if negb (owns C me c) then psort (T1 ++ [((sp + hosting_cost C me c)%Z, rq ++ [HOSTING])]) else T1) <= nh T + 1)%nat).
+          { pose proof (nh_remove_le T rq) as H. fold T1 in H. destruct (owns C me c); simpl; [lia|].
+            rewrite nh_psort_snoc. simpl. destruct (hostingp (rq ++ [HOSTING])); lia. }
+          unfold mu. rewrite app_length. simpl. split; [lia|left; lia]. }
+    destruct F as (TI2 & SUB2 & MU2 & PROG).
+    assert (AV1 : forall x, In x V1 -> is_agent C x = true) by (destruct TI2 as (_ & B & _); exact B).
+    pose proof (visit_loop_var me rq None b sp V1 c fp (S (List.length T2)) 0 s T2 count hosts evs (tinv_nomid _ _ _ TI2)) as VL.
+    cbv zeta in I. fold T1 V1 T2 in I.
+    destruct (visit_loop C (S (List.length T2)) 0 me rq None b sp V1 c fp s T2 count hosts evs) as [r|s3 T3 c3 h3 e3]; simpl in VL.
+    - destruct VL as [(x & T' & s' & c' & h' & e' & -> & (S' & N' & Hx & (cost & tl & Ie & Af)))|[(T' & s' & c' & h' & e' & -> & (S' & N'))|E0]].
+      + (* forwarded down *)
+        destruct (send_request_outs _ _ _ _ _ _ _ _ _ _ _ _ _ _ I) as (b' & sp' & -> & Eb). simpl.
+        assert (TI' : tinv V1 T' o) by (eapply tinv_subset; eauto).
+        destruct TI' as (A' & B' & D' & U').
+        destruct (D' _ Ie) as (X1 & X2 & X3 & X4). simpl in X1, X2, X3, X4.
+        assert (Ax : is_agent C x = true).
+        { destruct tl as [|y tl'].
+          - assert (Hh : hostingp (rq ++ [x]) = false) by (unfold hostingp; rewrite last_z_app; exact Hx).
+            destruct (X3 Hh) as [_ Y]. rewrite last_z_app in Y. exact Y.
+          - apply AV1, X2. apply removelast_In_app. }
+        assert (RQ' : rq_ok (rq ++ [x])).
+        { split; [|split; [destruct rq; discriminate|]].
+          - replace (rq ++ x :: tl) with ((rq ++ [x]) ++ tl) in X1 by (rewrite <- app_assoc; reflexivity).
+            eapply NoDup_prefix; eauto.
+          - intros y Hy. apply in_app_or in Hy as [Hy|[<-|[]]]; auto. }
+        split.
+        * split; [rewrite hd_app by exact NErq; exact (conj A' (conj B' (conj D' U')))|]. split; [exact RQ'|].
+          split; [rewrite removelast_last; exact SUB2|].
+          exists (cost, rq ++ x :: tl). split; [exact Ie|]. split; [apply is_prefix_snoc_cons|simpl; lia].
+        * pose proof (rq_len _ RQ') as L'. rewrite app_length in *. simpl in *.
+          apply W_le; [unfold mu in *; lia|lia].
+      + (* answered after a replica was accepted *)
+        destruct (send_answer_outs _ _ _ _ _ _ _ _ _ _ _ _ _ _ I) as (b' & sp' & pre & -> & Erq). simpl.
+        split.
+        * split; [eapply tinv_subset; eauto|]. split; [split; auto|]. split; [exact SUB2|]. exists pre, me. exact Erq.
+        * apply W_lt; [unfold mu in *; lia|unfold W; lia].
+      + rewrite E0 in I. destruct I.
+    - destruct VL as (S3 & N3 & NOAFF).
+      destruct (send_answer_outs _ _ _ _ _ _ _ _ _ _ _ _ _ _ I) as (b' & sp' & pre & -> & Erq). simpl.
+      assert (TI3 : tinv V1 T3 o) by (eapply tinv_subset; eauto).
+      destruct (add_neighbor_tinv V1 o rq sp NErq eq_refl NDrq SUB2 AV1 (neighbors C me) T3) as [TI4 N4]; auto.
+      { intros n r Hn. apply (neighbors_spec C me Ame) in Hn. tauto. }
+      split.
+      + split; [exact TI4|]. split; [split; auto|]. split; [exact SUB2|]. exists pre, me. exact Erq.
+      + assert (LT : (mu V1 T3 < mu V T)%nat).
+        { destruct PROG as [P|(e' & He' & Pe' & Ae')]; [unfold mu in *; lia|].
+          assert (NEQ : nh T3 <> nh T2).
+          { intro E. destruct (In_nth_error _ _ He') as [j Ej]. destruct e' as [ce pe].
+            eapply (NOAFF eq_refl E j ce pe); eauto. lia. }
+          unfold mu in *. lia. }
+        apply W_lt; [unfold mu in *; lia|unfold W; lia].
+  Qed.
+
+  Lemma computation_replicated_outs me s c hosts evs :
+    snd (fst (fst (computation_replicated me s c hosts evs))) = [].
+  Proof. unfold computation_replicated. destruct (zlookup c (s_inprog s)); reflexivity. Qed.
+
+  (* on_replicate_answer *)
+  Lemma on_answer_var me s b sp rq T V c fp count hosts evs pre sd :
+    tinv V T (hd (-2) rq) -> rq_ok rq -> (forall x, In x rq -> In x V) -> rq = pre ++ [me; sd] ->
+    forall d m, In (d, m) (snd (fst (fst (on_answer C me s b sp rq T V c fp count hosts evs)))) ->
+      mok3 d m /\ (Phi m < W * mu V T + (2 * na + List.length rq))%nat.
+  Proof.
+    intros TI (NDrq & NErq & Arq) SUB Erq d m I. unfold on_answer in I.
+    assert (Erev : rev rq = sd :: me :: rev pre) by (rewrite Erq, rev_app_distr; reflexivity).
+    rewrite Erev in I.
+    assert (Einit : removelast rq = pre ++ [me]).
+    { rewrite Erq. change [me; sd] with ([me] ++ [sd]). rewrite app_assoc. apply removelast_last. }
+    rewrite Einit in I.
+    set (ini := pre ++ [me]) in *.
+    assert (Erq' : rq = ini ++ [sd]) by (unfold ini; rewrite <- app_assoc; exact Erq).
+    assert (RQi : rq_ok ini).
+    { split; [rewrite Erq' in NDrq; eapply NoDup_prefix; eauto|]. split; [unfold ini; destruct pre; discriminate|].
+      intros x Hx. apply Arq. rewrite Erq'. apply in_or_app. auto. }
+    assert (SUBi : forall x, In x ini -> In x V) by (intros x Hx; apply SUB; rewrite Erq'; apply in_or_app; auto).
+    assert (HDi : hd (-2) ini = hd (-2) rq) by (rewrite Erq; unfold ini; destruct pre; reflexivity).
+    assert (Li : List.length rq = S (List.length ini)) by (rewrite Erq', app_length; simpl; lia).
+    assert (Lrq : (List.length rq <= na)%nat) by (apply rq_len; split; auto).
+    assert (ANS : forall T' s' c' h' e', (forall e, In e T' -> In e T) -> (nh T' <= nh T)%nat ->
+               In (d, m) (snd (fst (fst (send_answer C me s' b sp ini T' V c fp c' h' e')))) ->
+               mok3 d m /\ (Phi m < W * mu V T + (2 * na + List.length rq))%nat).
+    { intros T' s' c' h' e' S' N' I'.
+      destruct (send_answer_outs _ _ _ _ _ _ _ _ _ _ _ _ _ _ I') as (b' & sp' & pre' & -> & E'). simpl. split.
+      - split; [rewrite HDi; eapply tinv_subset; eauto|]. split; [exact RQi|]. split; [exact SUBi|]. exists pre', me. exact E'.
+      - apply W_le; [unfold mu; lia|lia]. }
+    destruct (count =? 0).
+    - destruct (3 <=? Z.of_nat (List.length rq)).
+      + eapply ANS; eauto.
+      + rewrite computation_replicated_outs in I. destruct I.
+    - pose proof (visit_loop_var me ini (Some rq) b sp V c fp (S (List.length T)) 0 s T count hosts evs (tinv_nomid _ _ _ TI)) as VL.
+      destruct (visit_loop C (S (List.length T)) 0 me ini (Some rq) b sp V c fp s T count hosts evs) as [r|s3 T3 c3 h3 e3]; simpl in VL.
+      + destruct VL as [(x & T' & s' & c' & h' & e' & -> & (S' & N' & Hx & (cost & tl & Ie & Af)))|[(T' & s' & c' & h' & e' & -> & (S' & N'))|E0]].
+        * destruct (send_request_outs _ _ _ _ _ _ _ _ _ _ _ _ _ _ I) as (b' & sp' & -> & Eb). simpl.
+          assert (TI' : tinv V T' (hd (-2) rq)) by (eapply tinv_subset; eauto).
+          destruct TI' as (A' & B' & D' & U').
+          destruct (D' _ Ie) as (X1 & X2 & X3 & X4). simpl in X1, X2, X3, X4.
+          assert (Ax : is_agent C x = true).
+          { destruct tl as [|y tl'].
+            - assert (Hh : hostingp (ini ++ [x]) = false) by (unfold hostingp; rewrite last_z_app; exact Hx).
+              destruct (X3 Hh) as [_ Y]. rewrite last_z_app in Y. exact Y.
+            - apply B', X2. apply removelast_In_app. }
+          assert (RQ' : rq_ok (ini ++ [x])).
+          { destruct RQi as (R1 & R2 & R3). split; [|split; [destruct ini; discriminate|]].
+            - replace (ini ++ x :: tl) with ((ini ++ [x]) ++ tl) in X1 by (rewrite <- app_assoc; reflexivity).
+              eapply NoDup_prefix; eauto.
+            - intros y Hy. apply in_app_or in Hy as [Hy|[<-|[]]]; auto. }
+          split.
+          -- split; [rewrite hd_app by (destruct RQi as (_ & R & _); exact R); rewrite HDi; exact (conj A' (conj B' (conj D' U')))|].
+             split; [exact RQ'|]. split; [rewrite removelast_last; exact SUBi|].
+             exists (cost, ini ++ x :: tl). split; [exact Ie|]. split; [apply is_prefix_snoc_cons|simpl; lia].
+          -- rewrite app_length. simpl. apply W_le; [unfold mu; lia|lia].
+        * eapply ANS; eauto. lia.
+        * rewrite E0 in I. destruct I.
+      + destruct VL as (S3 & N3 & _).
+        destruct (3 <=? Z.of_nat (List.length rq)) eqn:Elong; [eapply ANS; eauto|].
+        destruct T3 as [|e0 T3'] eqn:ET3; [rewrite computation_replicated_outs in I; destruct I|].
+        rewrite <- ET3 in *.
+        destruct (filter (fun e => negb (path_eqb (snd e) rq)) T3) as [|[c0 q0] r0] eqn:EF; [destruct I|].
+        assert (Epre : pre = []).
+        { apply Z.leb_gt in Elong. rewrite Erq, app_length in Elong. simpl in Elong. destruct pre; [reflexivity|simpl in Elong; lia]. }
+        subst pre. simpl in ini. unfold ini in *.
+        assert (TI3 : tinv V T3 me).
+        { rewrite Erq in TI. simpl in TI. eapply tinv_subset; eauto. }
+        assert (EX : exists e, In e T3 /\ is_prefix [me] (snd e) = true /\ fst e <= min_cost r0 c0 + 0).
+        { destruct (min_entry c0 q0 r0) as (cost & p & Ip & Le). rewrite <- EF in Ip. apply filter_In in Ip as [Ip _].
+          exists (cost, p). split; auto. split; [|simpl; lia].
+          destruct TI3 as (_ & _ & D3 & _). destruct (D3 _ Ip) as (_ & _ & _ & (tl & Etl)). simpl in Etl. simpl. rewrite Etl.
+          simpl. rewrite Z.eqb_refl. reflexivity. }
+        destruct (on_request_var me s3 (min_cost r0 c0) 0 [me] T3 V c fp c3 h3 e3 TI3 RQi) with (d := d) (m := m) as [M1 M2]; auto.
+        { intros x []. }
+        split; auto. simpl in M2. rewrite Li. simpl.
+        assert (MU : (mu V T3 <= mu V T)%nat) by (unfold mu; lia).
+        pose proof (Nat.mul_le_mono_l _ _ W MU). lia.
   Qed.
 End Variant.
